@@ -114,8 +114,38 @@ func intConst(files []*ast.File, name string) (int, bool) {
 	return 0, false
 }
 
+// integer constants declared as `const name = <expression evalInt understands>` in the files handed to collectIntConsts
+var intConsts = map[string]ast.Expr{}
+
+func collectIntConsts(files []*ast.File) {
+	for _, f := range files {
+		for _, d := range f.Decls {
+			gd, ok := d.(*ast.GenDecl)
+			if !ok || gd.Tok != token.CONST {
+				continue
+			}
+			for _, sp := range gd.Specs {
+				vs := sp.(*ast.ValueSpec)
+				for i, nm := range vs.Names {
+					if i < len(vs.Values) {
+						intConsts[nm.Name] = vs.Values[i]
+					}
+				}
+			}
+		}
+	}
+}
+
 func evalInt(e ast.Expr) (int, bool) {
 	switch x := e.(type) {
+	case *ast.Ident:
+		if v, ok := intConsts[x.Name]; ok {
+			delete(intConsts, x.Name) // no cycles
+			r, ok2 := evalInt(v)
+			intConsts[x.Name] = v
+			return r, ok2
+		}
+		return 0, false
 	case *ast.BasicLit:
 		v, err := strconv.ParseInt(x.Value, 0, 64)
 		return int(v), err == nil
@@ -225,7 +255,8 @@ func main() {
 	}
 	fmt.Printf("(* Some true: refused iff len(body) > limit; Some false: iff len(body) >= limit *)\nDefinition custom_limit_strict : option bool := %s.\n\n", strict)
 
-	// ---- C18: iteration bounds of HandleSignedLatency: `x < lo || x > hi`
+	// ---- C18: iteration bounds of HandleSignedLatency: `x < lo || x > hi` (literals or named constants of the package)
+	collectIntConsts(ws)
 	lo, hi, okLo, okHi := 0, 0, false, false
 	if fd := funcDecl(ws, "RealtimeHandler", "HandleSignedLatency"); fd != nil {
 		ast.Inspect(fd, func(x ast.Node) bool {
@@ -315,7 +346,23 @@ func main() {
 				continue
 			}
 			if _, ok := ce.Args[1].(*ast.FuncLit); !ok {
-				continue
+				// … or the helper hands its own function parameter through: X.IfNotSet(flag, do)
+				pid, isId := ce.Args[1].(*ast.Ident)
+				isParam := false
+				if isId {
+					for _, fld := range fd.Type.Params.List {
+						if _, isFn := fld.Type.(*ast.FuncType); isFn {
+							for _, nm := range fld.Names {
+								if nm.Name == pid.Name {
+									isParam = true
+								}
+							}
+						}
+					}
+				}
+				if !isParam {
+					continue
+				}
 			}
 			idx := 0
 			for _, fld := range fd.Type.Params.List {
